@@ -1284,6 +1284,8 @@ def m_tensor(it, data, dtype=None, **kw):
             return t_float(it, t)
         return t
     if isinstance(data, (list, tuple)):
+        if len(data) == 0:
+            return STensor.const((0,), 0.0, "real")
         elems = [m_tensor(it, x) for x in data]
         return m_stack(it, elems)
     raise OutOfSubset(f"torch.tensor of {type(data).__name__}")
